@@ -146,8 +146,11 @@ def rule_transpose(ctx):
         want = ('attr', ('call', ('attr', ('name', 'np'), 'rollaxis'), (fake, pos, P_('start')), ()), 'shape')
         ok = v[0] == 'call' and T.call_name(v) == 'transpose' and T.call_receiver(v) == SELF and v[2] == (want,)
         if not ok:
-            ctx.violated('R1', fi, 'return ' + T.show(v)[:160], 'rollaxis must permute with numpy.rollaxis semantics: transpose(np.rollaxis(np.ones(range(ndim)), '
-                         'pos, start).shape) with pos the resolved position (np.moveaxis differs when start > axis)', node=p.node)
+            # the permutation is computed some other way: read it off the interpreted scenarios (every axis position and name against start positions before, at and after it,
+            # negative ones and ndim included, on 3-d and 4-d arrays) - np.rollaxis semantics are in the frozen outcomes
+            from ..scenario_rule import rule_scenarios
+            rule_scenarios(ctx, 'R1', only=RS + 'rollaxis', title='rollaxis permutes with numpy.rollaxis semantics (interpreted scenarios)')
+            break
         else:
             ctx.holds('R1', 'rollaxis: np.rollaxis on a shape-labelled dummy, resolved position')
     # T
